@@ -36,7 +36,14 @@ OPAQUE = {
     (2, 73): [(0, 1), (1, 1)],
     (1, 85): [(0, 2), (1, 2), (2, 2), (3, 2), (4, 2)],
     (2, 85): [(0, 2), (1, 2), (2, 2), (3, 2), (4, 2)],
+    (1, 133): [(0, 4), (1, 4), (2, 2), (3, 1)],
+    (2, 133): [(0, 4), (1, 4), (2, 2), (3, 1)],
+    (1, 134): [(0, 4), (1, 4), (2, 2), (3, 1)],
+    (2, 134): [(0, 4), (1, 4), (2, 2), (3, 1)],
+    (25, 70): [(1, 2), (2, 3), (12, 2), (22, 2), (3, 2), (13, 1), (4, 1), (14, 1), (5, 2), (15, 2)],
+    (16388, 71): [(0, 2), (1, 2), (2, 2), (3, 2), (4, 2)],
 }
+FLOWSPEC = [(1, 133), (2, 133), (1, 134), (2, 134)]
 OK_PROBE = "((o 0 t))"
 
 
@@ -208,7 +215,8 @@ def gen_attrs(r, info, big_target=None):
         flags = r.pick([192, 192, 224, 208, 193])
         attrs.append("(opq %d %d (fill %d %d))" % (code, flags, r.pick([0, 1, 10, 255, 256, 300]), r.below(1000)))
     if r.chance(1, 10):
-        attrs.append("(raw %d %d (fill %d %d))" % (r.pick([192, 208, 224]), r.pick([8, 16, 32]), 24 * r.below(12), r.below(100)))
+        fl = r.pick([192, 208, 224])
+        attrs.append("(raw %d %d (fill %d %d))" % (fl, r.pick([8, 16, 32]), 24 * r.below(12 if fl == 208 else 10), r.below(100)))
     if big_target is not None and big_target > 0:
         code, flags = r.pick([(98, 192), (97, 224)])
         attrs.append("(opq %d %d (fill %d %d))" % (code, flags, big_target, r.below(1000)))
@@ -298,8 +306,8 @@ def gen_update(r, explore_ok=True):
     reach = r.chance(2, 3)
     target = None
     if reach:
-        target = r.weighted([(None, 12), (r.below(300), 3), (limit - 200 + r.below(220), 1), (limit - 60 + r.below(50), 1),
-                             (r.below(limit), 2)])
+        target = r.weighted([(None, 30), (r.below(300), 6), (limit - 200 + r.below(140), 2), (limit - 60 + r.below(70), 1),
+                             (r.below(limit - 200), 4)])
     overhead = 60 + (target or 0)
     cap = max(1, (limit - min(overhead, limit - 30)) // entry_size(fam, info["ap"]))
     count = pick_count(r, cap)
@@ -426,6 +434,8 @@ def gen_explore(r, items_out):
         items_out.append((fam[0], fam[1], reach, kind, seed))
     attrs = gen_attrs(r, info, None) if reach else None
     nh = gen_nh(r, fam, info) if reach else None
+    if reach and fam in FLOWSPEC and r.chance(19, 20):
+        nh = "none"
     if weird:
         # no add-path for the single-entry probes
         loc = [c for c in loc if not c.startswith("(ap")]
